@@ -57,6 +57,12 @@ checks = {
  "C17": ("exploration", "lease reads judged by the sequence-number staleness oracle, a lapsed-lease rule and a lease-overlap watcher, with measured timing preconditions",
          "Lease-based reads are issued continuously at old leaders across partitions and leader changes; successful ones must cover every write acknowledged before their invocation; reads invoked > 5 leases after the last voter reply must not return data; no node may become leader while another still reports a valid lease. Runs where lease + max round trip + max stall >= election timeout are inconclusive.",
          "real time; clocks of all nodes are one process clock (synchronised by construction)", "5/C17"),
+ "C14": ("fault_enumeration", "crash-fork at seed-chosen storage-operation boundaries in cluster runs, restart over the image, all safety oracles + bounded catch-up",
+         "Enumerates crash-point classes (9 storage operations x before/after, torn appends, asynchronous kills) across roles in fault-injected cluster runs and counts the (class x position x role) cells reached; every restart must succeed, no fatal abort may follow, the safety oracles must stay silent and the node must catch up within step bounds.",
+         "crash = process death at storage-operation boundaries (directory image copied while all storage operations of the node are quiesced)", "5/C14"),
+ "C15": ("exploration", "step-counted bounded-progress monitor after the heal of every fault schedule",
+         "After faults stop: leader within a bound of candidacy rounds and stable for 20 heartbeat rounds, every member caught up within 300 exchanges, fresh write within 100 exchanges; violations carry the repeating exchange pattern of the stuck link as witness.",
+         "liveness restated as bounded progress; bounds far above what a correct implementation needs here", "5/C15"),
 }
 
 not_yet = {
